@@ -131,11 +131,16 @@ def _update_variable_sharding_metadata(
         state = axis_fn(state, node_states.metadata, transform_metadata)
         return node_states.replace(states=(state,))
       else:
+        axes: tuple = tuple(node_states.metadata.axes)
+        if len(node_states.states) != len(axes):
+          # scan keeps only the substates with an integer axis in `states`
+          # (carry and broadcast substates travel separately)
+          axes = tuple(axis for axis in axes if isinstance(axis, int))
         states_out: list[graph.GraphState | variablelib.VariableState] = []
-        for state, axis in zip(node_states.states, node_states.metadata.axes):
+        for i, state in enumerate(node_states.states):
           assert isinstance(state, graph.State | variablelib.VariableState)
-          if isinstance(axis, int):
-            state = axis_fn(state, axis, transform_metadata)
+          if i < len(axes) and isinstance(axes[i], int):
+            state = axis_fn(state, axes[i], transform_metadata)
           states_out.append(state)
         return node_states.replace(states=tuple(states_out))
     return node_states
